@@ -331,7 +331,7 @@ theorem step_dinv_fanStep {c : Cfg} {s s' : St} (hi : Inv s) (h : DInv c s) (k :
 /-- registering a fresh subscription -/
 theorem dinv_register {c : Cfg} {s : St} (hi : Inv s) (h : DInv c s) (i : SubId) (rc : List Call)
     (hpc : (s.subs i).pc = .start) (hj : s.joe = .idle) :
-    DInv c { setSub s i { s.subs i with pc := .waiting, calls := (s.subs i).calls ++ rc, replayed := rc.length, regAt := some s.log.length } with subscribers := i :: s.subscribers } := by
+    DInv c { setSub s i { s.subs i with pc := .waiting, calls := (s.subs i).calls ++ rc, replayed := rc.length, regAt := some s.log.length, storeAt := s.store } with subscribers := i :: s.subscribers } := by
   obtain ⟨hcalls, hrep, hreg, hend⟩ := h.fresh i (Or.inr hpc)
   have hni : i ∉ s.subscribers := (hi.fresh i (Or.inr hpc)).2
   have hnf : ∀ p' k rest', s.joe ≠ .failed p' k rest' := by simp [hj]
